@@ -98,7 +98,7 @@ MM = {
         ('//move piece', 0, 'let ghost pre_mv = *board;'),
         ('// deal with castling, here we also make sure', 0, 'let ghost pre_ca = *board;'),
     ],
-    'after_stmt': [
+    'block_end': [
         ('board.pawn_double_move = Some(target)', 0, """proof {
                 let s = &*board; let h = zobrist_hasher;
                 let e = h.ep(target.1 as int);
@@ -182,4 +182,4 @@ def build(g):
     if ('fn __verif_char_at(s: &str, n: usize) -> char ' + CHAR_BODY) not in kh or ('fn __verif_square_at(s: &str, i: usize) -> Point ' + SQ_BODY) not in kh:
         raise LostAnchor('R3/R4 helper bodies differ between contracts/ucimove.py and kani/uci_harness.rs')
     g.add(SPEC_T.replace('%(CHAR_BODY)s', CHAR_BODY).replace('%(SQ_BODY)s', SQ_BODY))
-    g.add(g.fn('uci', 'make_move', MM, rewrites=[R3, R4a, R4b], props=P))
+    g.add(g.fn('uci', 'make_move', MM, rewrites=[R3, R4a, R4b], props=P, own=()))
